@@ -14,10 +14,12 @@ import re
 
 
 def gen_scenario(rng):
-    ops, values = [], {}
+    """-> (ops, values) ; values = union of all rounds (informative), each ["instantiate", {..}] carries its own"""
+    if rng.random() < 0.35:
+        return gen_rounds(rng)
+    ops, allv = [], {}
     live = False
-    held = False
-    templ_pending = False
+    pend_t = []   # template names pending in the builder
     ntempl = 0
     n = rng.randint(3, 14)
     for _ in range(n):
@@ -30,51 +32,94 @@ def gen_scenario(rng):
                 ops.append(["gate", rng.choice(["h", "x", "z"])])
             else:
                 t = None
-                if rng.random() < 0.6 and not held:
+                if rng.random() < 0.6:
                     t = f"t{ntempl}"
                     ntempl += 1
-                    values[t] = rng.randint(0, 31)
-                    templ_pending = True
-                ops.append(["rot", rng.choice("XYZ"), values[t] if t else rng.randint(0, 31), rng.choice([1, 2, 3, 4]), t])
+                    pend_t.append(t)
+                ops.append(["rot", rng.choice("XYZ"), rng.randint(0, 31), rng.choice([1, 2, 3, 4]), t])
         elif r < 0.6:
             ops.append([rng.choice(["meas_arr", "meas_arr", "meas_reg"])])
             live = False
-        elif r < 0.75 and not templ_pending and not held:
+        elif r < 0.75 and not pend_t:
             ops.append(["flush"])
-        elif not held:
-            ops.append(["compile"])
-            held, templ_pending = True, False
-            # operations issued between compile and commit belong to the next subroutine
-            for _ in range(rng.randint(0, 2)):
-                if not live:
-                    ops.append(["new"])
-                    live = True
-                ops.append(["gate", rng.choice(["h", "x"])])
-            ops.append(["instantiate"])
-            ops.append(["commit"])
-            held = False
-    if templ_pending:
-        ops += [["compile"], ["instantiate"], ["commit"]]
+        else:
+            live = compile_triple(rng, ops, pend_t, allv, live)
+    if pend_t:
+        live = compile_triple(rng, ops, pend_t, allv, live)
     if rng.random() < 0.8:
         if not live:
             ops.append(["new"])
         ops.append(["meas_arr"])
         ops.append(["flush"])
-    return ops, values
+    return ops, allv
 
 
-def direct_version(ops, values):
-    """the same operations written with the values, flushed where the other flow compiles"""
-    out = []
+def compile_triple(rng, ops, pend_t, allv, live):
+    vals = {t: rng.randint(0, 31) for t in pend_t}
+    allv.update(vals)
+    del pend_t[:]
+    ops.append(["compile"])
+    # operations issued between compile and commit belong to the next subroutine
+    for _ in range(rng.randint(0, 2)):
+        if not live:
+            ops.append(["new"])
+            live = True
+        ops.append(["gate", rng.choice(["h", "x"])])
+    ops.append(["instantiate", vals])
+    ops.append(["commit"])
+    return live
+
+
+def gen_rounds(rng):
+    """the SAME templated block (same template names, same text) compiled, instantiated and committed
+    in several rounds with DIFFERENT values, on a qubit that stays alive"""
+    ops, allv = [["new"]], {}
+    if rng.random() < 0.7:
+        ops.append(["flush"])
+    block = []
+    names = ["theta", "phi", "chi"][: rng.randint(1, 3)]
+    for t in names:
+        block.append(["rot", rng.choice("XYZ"), 0, rng.choice([2, 3, 4]), t])
+        if rng.random() < 0.4:
+            block.append(["gate", rng.choice(["h", "x", "z"])])
+    used = set()
+    for rnd in range(rng.randint(2, 4)):
+        ops += [list(o) for o in block]
+        vals = {}
+        for t in names:
+            v = rng.randint(0, 31)
+            while (t, v) in used:
+                v = rng.randint(0, 31)
+            used.add((t, v))
+            vals[t] = v
+        allv.update({f"{t}@{rnd}": v for t, v in vals.items()})
+        ops += [["compile"], ["instantiate", vals], ["commit"]]
+        if rng.random() < 0.3:
+            ops += [["gate", "h"], ["flush"]]
+    ops += [["meas_arr"], ["flush"]]
+    return ops, allv
+
+
+def direct_version(ops, values=None):
+    """the same operations written with the values of the round they are instantiated in, flushed
+    where the other flow compiles"""
+    out, pending, held = [], [], []
     for o in ops:
         if o[0] == "rot":
             out.append(["rot", o[1], o[2], o[3], None])
+            if o[4]:
+                pending.append((len(out) - 1, o[4]))
         elif o[0] == "compile":
             out.append(["flush"])
-        elif o[0] in ("instantiate", "commit"):
+            held, pending = pending, []
+        elif o[0] == "instantiate":
+            for (i, t) in held:
+                out[i][2] = o[1][t]
+            held = []
+        elif o[0] == "commit":
             continue
         else:
-            out.append(o)
+            out.append(list(o))
     return out
 
 
@@ -120,7 +165,7 @@ def run_flow(repo, ops, values, hardware, script, subst_by_position=False):
                     sub = conn.compile()
                 elif k == "instantiate":
                     if sub is not None:
-                        sub.instantiate(conn.app_id, dict(values))
+                        sub.instantiate(conn.app_id, dict(o[1]))
                 elif k == "commit":
                     if sub is not None:
                         conn.commit_subroutine(sub)
@@ -143,13 +188,15 @@ def run_flow(repo, ops, values, hardware, script, subst_by_position=False):
     obs["trace"] = [[m, list(a), list(i)] for m, a, i in pipe.gate_trace()]
     obs["snaps"] = snaps
     obs["left"] = left
-    views = []
+    views, rots = [], []
     for s in pipe.subroutines[: obs.get("nsubs", len(pipe.subroutines))]:
         decl = [i.address.address for i in s.instructions if i.mnemonic == "array"]
         reta = [i.address.address for i in s.instructions if i.mnemonic == "ret_arr"]
         retr = [i.reg.index for i in s.instructions if i.mnemonic == "ret_reg"]
         views.append([decl, reta, retr])
+        rots.append([getattr(i.angle_num, "value", -1) for i in s.instructions if i.mnemonic in ("rot_x", "rot_y", "rot_z")])
     obs["views"] = views
+    obs["rots"] = rots
     obs["subroutines"] = [str(s) for s in pipe.subroutines]
     return obs
 
@@ -208,8 +255,8 @@ def model_ops(ops, values):
             out.append(f'SGate ("{o[1]}", [OReg 0])')
             pend = True
         elif k == "rot":
-            n = f'OTmpl "{o[4]}"' if o[4] else f"OInt {o[2]}"
-            out.append(f'SGate ("rot_{o[1].lower()}", [OReg 0; {n}; OInt {o[3]}])')
+            n = f'OTmpl "{o[4]}"' if o[4] else f"OInt ({o[2]})%Z"
+            out.append(f'SGate ("rot_{o[1].lower()}", [OReg 0; {n}; OInt ({o[3]})%Z])')
             pend = True
         elif k == "meas_arr":
             out.append('SMeasArr ("meas", [OReg 0; OReg 0])')
@@ -229,7 +276,7 @@ def model_ops(ops, values):
                 nreg = 0
             pend = False
         elif k == "instantiate":
-            vs = "".join(f'if String.eqb n "{t}" then {v} else ' for t, v in values.items())
+            vs = "".join(f'if String.eqb n "{t}" then {v} else ' for t, v in o[1].items())
             out.append(f"SInstantiate (fun n => ({vs}0)%Z)")
         elif k == "commit":
             out.append("SCommit")
@@ -263,6 +310,11 @@ def run(ctx):
         ctx.gen_obligation("Gen_Conn.v type-checks", r.ok, r.err[-300:])
         ok = r.ok
     if ok:
+        okb, errb = ctx.gen("nv_blocks.py", "Gen_NvBlocks.v")
+        ctx.gen_obligation("translator nv_blocks.py (NV decomposition table, for the transpile/instantiate clause)", okb, errb.strip()[-300:])
+        if okb:
+            rb = ctx.coqc("Gen_NvBlocks.v")
+            ctx.gen_obligation("Gen_NvBlocks.v type-checks", rb.ok, rb.err[-300:])
         ctx.props("C06")
     ctx.trusted += ["gen/conn_tables.py: reads the live list netqasm.lang.parsing.text._REPLACE_CONSTANTS_EXCEPTION",
                     "harness/sdk_pipeline.py (in-process connection/controller, RecExecutor with scripted outcomes); "
@@ -295,10 +347,15 @@ def run(ctx):
         for hw in ("generic", "nv"):
             okj, pre, dire = judge(ctx, ops, values, hw, script, stats)
             nontriv = any(o[0] == "rot" and o[4] for o in ops) and ops[-1][0] == "flush"
+            if hw == "generic":
+                nrounds = sum(1 for o in ops if o[0] == "compile")
+                stats["rounds>=2_same_block" if any(a.endswith("@1") for a in values) else "mixed"] = \
+                    stats.get("rounds>=2_same_block" if any(a.endswith("@1") for a in values) else "mixed", 0) + 1
             ctx.note_case((json.dumps(ops), json.dumps(values), hw), nontrivial=nontriv)
             if hw == "generic" and pre["error"] is None and pre["left"] is not None:
                 views = "[" + "; ".join(f"({nl(v[0])}, {nl(v[1])}, {nl(v[2])})" for v in pre["views"]) + "]"
-                cases.append(f"mkC {model_ops(ops, values)} {views} {nl(pre['left'][0])} {nl(pre['left'][1])}")
+                rots = "[" + "; ".join("[" + "; ".join(f"({x})%Z" for x in r) + "]" for r in pre["rots"]) + "]"
+                cases.append(f"mkC {model_ops(ops, values)} {views} {nl(pre['left'][0])} {nl(pre['left'][1])} {rots}")
                 meta.append(dict(ops=ops, values=values, views=pre["views"], left=pre["left"]))
         if k < 3:
             ctx.samples.append(dict(ops=ops, values=values))
